@@ -768,7 +768,7 @@ void save_watchpoint(struct mcount_thread_data *mtdp, struct mcount_ret_stack *r
 	bool init_watch;
 
 	timestamp = rstack->end_time ?: rstack->start_time;
-	rstack_idx = rstack - mtdp->rstack;
+	rstack_idx = rstack - mtdp->rstack + 1;
 	init_watch = !mtdp->watch.inited;
 
 	if (init_watch) {
